@@ -3,6 +3,7 @@ package lang
 import (
 	"encoding/json"
 	"fmt"
+	"math"
 	"strconv"
 	"strings"
 	"unicode"
@@ -165,7 +166,13 @@ func nativeNum(e *Evaluator, args []*Value, this *Value) (*Value, error) {
 
 	switch args[0].Tag {
 	case ValueNum:
-		v := NewValue(int(*args[0].Num))
+		// the integer part; not through int, which mangles numbers beyond its
+		// range (num(num("1e300")) was -9223372036854775808)
+		n := math.Trunc(*args[0].Num)
+		if n == 0 {
+			n = 0 // no negative zero
+		}
+		v := NewValue(n)
 		return &v, nil
 	case ValueStr:
 		n, err := strconv.ParseFloat(*args[0].Str, 64)
